@@ -90,6 +90,17 @@ ActisenseBody(src, dst, prio, pgn, payload, upper) ==
 ActisenseReceive(stamp, src, dst, prio, pgn, payload, upper) ==
   stamp \o <<SP>> \o ActisenseBody(src, dst, prio, pgn, payload, upper)
 
+\* reading it back (decode_actisense_string): stamp, header, PGN, payload as one run of hex digit pairs
+RECURSIVE HexPairs(_)
+HexPairs(t) == IF Len(t) < 2 THEN <<>> ELSE <<HexVal(t[1]) * 16 + HexVal(t[2])>> \o HexPairs(SubSeq(t, 3, Len(t)))
+ActisenseValid(line) == LET t == Tokens(line) IN
+                          /\ Len(t) >= 4 /\ t[1] # <<>> /\ t[1][1] = 65                       \* "A..."
+                          /\ IsHex(t[2]) /\ IsHex(t[3]) /\ IsHex(t[4]) /\ Len(t[4]) % 2 = 0
+ActisenseParse(line) == LET t == Tokens(line)
+                            h == HexNum(t[2])
+                        IN [src |-> (h \div 4096) % 256, dst |-> (h \div 16) % 256, prio |-> h % 16,
+                            pgn |-> HexNum(t[3]), payload |-> HexPairs(t[4])]
+
 \* canboat plain: "2020-01-01-00:00:00.000,prio,pgn,src,dst,len,b0,b1,..."
 Plain(stamp, src, dst, prio, pgn, data, upper) ==
   stamp \o <<COMMA>> \o Dec(prio) \o <<COMMA>> \o Dec(pgn) \o <<COMMA>> \o Dec(src) \o <<COMMA>> \o Dec(dst)
